@@ -25,7 +25,7 @@ PREFIX_KINDS = ["bfs", "dfs", "min", "min_skip", "attr", "target", "target", "co
 
 def cases(tier, seed):
     rng = random.Random(f"C06/{seed}")
-    count = 25000 if tier == "quick" else 100000
+    count = 25000 if tier == "quick" else 250000
     cl = [("rand", 4), ("gadget", 5), ("inputs", 3), ("rand-wide", 1), ("dense-neg", 1)]
     nets = gen.corpus() + [gen.draw(rng, cl, 6 if rng.random() < 0.6 else 7) for _ in range(count)]
     out = []
